@@ -19,15 +19,16 @@ PROVED_SITES = {
     ('basic_interpreter', 'modus_ponens'): 'rule', ('basic_interpreter', 'exists_generalization'): 'rule',
     ('basic_interpreter', 'instantiate'): 'rule',
     ('proof', 'load_axiom'): 'declared axiom (asserted to be in _axioms)',
-    ('proof', 'proved_exp'): 'publish_proof returns the conclusion it just published',
+    ('proof', 'publish_proof'): 'publish_proof returns the conclusion it just published',
     ('stateful_interpreter', 'publish_axiom'): 'memory entry of a published axiom',
     ('metamath.translate', 'exec_proof'): 'comparison with the expected final term',
 }
 
 
 def enclosing(tree, node) -> str:
-    from ..core.pyfacts import enclosing_def
-    f_ = enclosing_def(tree, node)
+    # the function a call site belongs to is the outermost one it is written in: a nested closure has no licence of its own
+    from ..core.pyfacts import enclosing_top
+    f_ = enclosing_top(tree, node)
     return f_.name if f_ is not None else '<module>'
 
 
